@@ -1443,10 +1443,15 @@ iwrc jbl_at2(struct jbl *jbl, struct jbl_ptr *jp, struct jbl **res) {
   if (jp->cnt == 0) {
     struct jbl *rv;
     RCRA(rv = malloc(sizeof(struct jbl)));
+    if (jbl->bn.writable && jbl->bn.dirty) {
+      binn_save_header(&jbl->bn);
+    }
     memcpy(&rv->bn, &jbl->bn, sizeof(rv->bn));
     rv->node = 0;
     rv->bn.allocated = 0;
     rv->bn.freefn = 0;
+    rv->bn.writable = 0;          // the result borrows the buffer of `jbl`: jbl_destroy(res) must not free it
+    rv->bn.userdata_freefn = 0;
     *res = rv;
     return 0;
   }
